@@ -941,6 +941,13 @@ func (st *State) applyContract(fct *FuncContract, fn *types.Func, recv *Val, arg
 	}
 	st.checkCallLocks(fct, names, tag, pos)
 	old := st.snapshot(names)
+	// allocation may have happened inside the callee: the counter moves first, so that whatever the callee stored
+	// into its footprint is typed against the new counter (it may store references it allocated itself)
+	if !fct.NoAlloc {
+		newAlloc := fc.fresh("alloc", "Int")
+		st.assume(sCmp(">=", newAlloc, st.alloc))
+		st.alloc = newAlloc
+	}
 	// frame: havoc the modifies footprint
 	st.havocTargets(mkEnv(st, names, nil), fct.Modifies, old)
 	// results
@@ -963,10 +970,7 @@ func (st *State) applyContract(fct *FuncContract, fn *types.Func, recv *Val, arg
 	}
 	// allocation may have happened inside the callee
 	if !fct.NoAlloc {
-		newAlloc := fc.fresh("alloc", "Int")
-		st.assume(sCmp(">=", newAlloc, st.alloc))
 		st.havocFreshHeaps(rtypes, old)
-		st.alloc = newAlloc
 	}
 	rn := map[string]Val{}
 	for k, v := range names {
